@@ -68,8 +68,9 @@ def check(ctx, src):
         ctx.need(ent is not None and ent[0] == meth, f"handler for {ch!r} is not {meth}")
         f = ent[2]
         rets = [r for r in pyq.walk_no_nested(f) if isinstance(r, ast.Return)]
-        ctx.check(rets and all(r.value is None or (isinstance(r.value, ast.Constant) and r.value.value is None) for r in rets) and isinstance(f.body[-1], ast.Return), "NONE-PROP", f"{HR}|{meth}|returns None",
-                  f"the handler of {ch!r} does not return None on every path", HR, f.lineno, witness="a comment / discarded form contributes a model", detail="return None")
+        # every `return` of the handler returns None (falling off the end does too)
+        ctx.decide("NONE-PROP", f"{HR}|{meth}|returns None", all(r.value is None or (isinstance(r.value, ast.Constant) and r.value.value is None) for r in rets),
+                   f"the handler of {ch!r} does not return None on every path", HR, f.lineno, witness="a comment / discarded form contributes a model", detail="return None")
     lc = rq.handlers[";"][2]
     # which characters end a comment: the constants the characters of self.chars(...) are compared with in line_comment
     cmp_consts = set()
@@ -93,8 +94,15 @@ def check(ctx, src):
     ys = [y for y in ast.walk(pfu) if isinstance(y, ast.Yield) and isinstance(y.value, ast.Name)]
     verdict = None
     for y in ys:
-        at = [str(a) for a in pyq.atoms(y, pfu)]
-        verdict = True if f"{y.value.id} is not None" in at else (False if verdict is None else verdict)
+        v_ = y.value.id
+        tested = False
+        for t_, pol in pyq.guards(y, pfu):
+            for x in ast.walk(t_):
+                if isinstance(x, ast.Compare) and len(x.ops) == 1 and isinstance(x.ops[0], (ast.IsNot, ast.Is)) and isinstance(x.comparators[0], ast.Constant) and x.comparators[0].value is None:
+                    l_ = x.left
+                    if (isinstance(l_, ast.Name) and l_.id == v_) or (isinstance(l_, ast.NamedExpr) and l_.target.id == v_):
+                        tested = tested or (pol == isinstance(x.ops[0], ast.IsNot))
+        verdict = True if tested else (False if verdict is None else verdict)
     ctx.decide("NONE-PROP", f"{HR}|parse_forms_until|loop", verdict, "parse_forms_until yields what try_parse_one_form returned without testing it for None",
                HR, pfu.lineno, witness="(a ; c\n b) contains None", detail="yield only non-None")
     lp = next((n for n in pyq.walk_no_nested(pfu) if isinstance(n, ast.While)), None)
